@@ -301,6 +301,13 @@ def python_to_int(value: Union[SupportsInt, str]) -> str:
     return str(int(value))
 
 
+def python_to_decimal(value: Union[Decimal, int, float, str]) -> str:
+    """The lexical space of xs:decimal has no exponent: str(Decimal('0E-40')) is not in it."""
+    if isinstance(value, Decimal) and value.is_finite():
+        return format(value, 'f')
+    return str(value)
+
+
 # Lexical spaces of xs:integer and xs:decimal: only ASCII digits, no separators or inner spaces
 _INTEGER_PATTERN = re.compile(r'[ \t\n\r]*[+-]?[0-9]+[ \t\n\r]*')
 _DECIMAL_PATTERN = re.compile(r'[ \t\n\r]*[+-]?(?:[0-9]+(?:\.[0-9]*)?|\.[0-9]+)[ \t\n\r]*')
